@@ -72,6 +72,11 @@ func (env *Env) force(v CVal) CVal {
 			env.assume(env.ex.validVal(v.T, v.Ty, true))
 		} else {
 			env.assume(env.ex.validValAt(v.T, v.Ty, v.Addr))
+			if rootIsPre(v.T) {
+				for _, r := range refParts(v.T, v.Ty) {
+					env.assume(Or(Eq(r, Null), ILe(Acc("rid", r), env.ex.A0)))
+				}
+			}
 		}
 	}
 	return v
@@ -592,10 +597,11 @@ func (env *Env) quant(e *CExpr) CVal {
 		}
 	}
 	var t *Term
+	pats := autoPatterns(body, bv)
 	if e.Op == "forall" {
-		t = Forall([]*Term{bv}, body)
+		t = Forall([]*Term{bv}, body, pats...)
 	} else {
-		t = Not(Forall([]*Term{bv}, Not(body)))
+		t = Not(Forall([]*Term{bv}, Not(body), pats...))
 	}
 	return CVal{T: t, Ty: types.Typ[types.Bool]}
 }
@@ -664,6 +670,14 @@ func (env *Env) callExpr(e *CExpr) CVal {
 		po, so := Acc("soff", p.T), Acc("soff", s.T)
 		return CVal{T: And(Eq(pb, sb), BVUle(so, po), BVUle(BVAdd(po, Acc("slen", p.T)), BVAdd(so, Acc("slen", s.T))),
 			BVUle(Acc("slen", p.T), Acc("scap", p.T)), BVUle(BVAdd(po, Acc("scap", p.T)), BVAdd(so, Acc("scap", s.T)))), Ty: boolT}
+	case "sbaseSame": // same backing array and offset (a prefix/reslice of the same slice)
+		p, q := env.force(arg(0)), env.force(arg(1))
+		return CVal{T: And(Eq(Acc("sbase", p.T), Acc("sbase", q.T)), Eq(Acc("soff", p.T), Acc("soff", q.T))), Ty: boolT}
+	case "str": // string([]byte) as in a Go conversion
+		b := env.force(arg(0))
+		sl := b.Ty.Underlying().(*types.Slice)
+		arr := env.stateOf(b).arr(sl.Elem(), Acc("sbase", b.T))
+		return CVal{T: UF("str_of_bytes", SStr, arr, Acc("soff", b.T), Acc("slen", b.T)), Ty: types.Typ[types.String]}
 	case "fid":
 		f := env.force(arg(0))
 		return CVal{T: Acc("fid", f.T)}
@@ -700,11 +714,25 @@ func (env *Env) callExpr(e *CExpr) CVal {
 		i := env.intOf(e.Args[1])
 		n := map[string]int{"be16": 2, "be32": 4, "be64": 8}[name]
 		sl := s.Ty.Underlying().(*types.Slice)
-		arr := Select(env.stateOf(s).amem(sl.Elem()), Acc("sbase", s.T))
+		arr := env.stateOf(s).arr(sl.Elem(), Acc("sbase", s.T))
 		off := BVAdd(Acc("soff", s.T), i)
 		var acc *Term
 		for k := 0; k < n; k++ {
 			b := Select(arr, BVAdd(off, bv64(int64(k))))
+			if acc == nil {
+				acc = b
+			} else {
+				acc = Concat(acc, b)
+			}
+		}
+		ty := map[int]types.Type{2: types.Typ[types.Uint16], 4: types.Typ[types.Uint32], 8: types.Typ[types.Uint64]}[n]
+		return CVal{T: acc, Ty: ty}
+	case "be64arr", "be32arr", "be16arr": // big-endian value of the first bytes of an array value
+		a := env.force(arg(0))
+		n := map[string]int{"be16arr": 2, "be32arr": 4, "be64arr": 8}[name]
+		var acc *Term
+		for k := 0; k < n; k++ {
+			b := Select(a.T, bv64(int64(k)))
 			if acc == nil {
 				acc = b
 			} else {
@@ -724,7 +752,7 @@ func (env *Env) callExpr(e *CExpr) CVal {
 	case "zeroed":
 		s := env.force(arg(0))
 		sl := s.Ty.Underlying().(*types.Slice)
-		arr := Select(env.stateOf(s).amem(sl.Elem()), Acc("sbase", s.T))
+		arr := env.stateOf(s).arr(sl.Elem(), Acc("sbase", s.T))
 		j := BoundVar("z$j", BV(64))
 		off, ln := Acc("soff", s.T), Acc("slen", s.T)
 		return CVal{T: Forall([]*Term{j}, Implies(BVUlt(j, ln), Eq(Select(arr, BVAdd(off, j)), zeroOf(sl.Elem())))), Ty: boolT}
@@ -871,7 +899,7 @@ func (env *Env) bsOf(s CVal) *Term {
 	if !ok {
 		env.fail("bytes() of non-slice")
 	}
-	arr := Select(env.stateOf(s).amem(sl.Elem()), Acc("sbase", s.T))
+	arr := env.stateOf(s).arr(sl.Elem(), Acc("sbase", s.T))
 	return UF("bs_of", SBS, arr, Acc("soff", s.T), Acc("slen", s.T))
 }
 
@@ -928,4 +956,72 @@ func refOfVal(p CVal) *Term {
 		return Acc("sbase", p.T)
 	}
 	panic(cerr{"ghost field of a value that is not a reference"})
+}
+
+// autoPatterns: E-matching triggers for a contract quantifier: the smallest
+// select terms whose index mentions the bound variable (one pattern each, used
+// as alternatives is not expressible in one :pattern, so the first is taken).
+func autoPatterns(body, bv *Term) []*Term {
+	var best *Term
+	seen := map[int]bool{}
+	var mentions func(t *Term) bool
+	memo := map[int]bool{}
+	mentions = func(t *Term) bool {
+		if v, ok := memo[t.id]; ok {
+			return v
+		}
+		r := t == bv
+		for _, a := range t.Args {
+			if mentions(a) {
+				r = true
+			}
+		}
+		memo[t.id] = r
+		return r
+	}
+	var walk func(t *Term)
+	walk = func(t *Term) {
+		if seen[t.id] || !mentions(t) {
+			return
+		}
+		seen[t.id] = true
+		if t.Op == "forall" || t.Op == "exists" {
+			return
+		}
+		if t.Op == "select" && mentions(t.Args[1]) && !mentions(t.Args[0]) && patternOK(t) {
+			if best == nil || termSize(t) < termSize(best) {
+				best = t
+			}
+			return
+		}
+		for _, a := range t.Args {
+			walk(a)
+		}
+	}
+	walk(body)
+	if best == nil {
+		return nil
+	}
+	return []*Term{best}
+}
+
+func termSize(t *Term) int {
+	n := 1
+	for _, a := range t.Args {
+		n += termSize(a)
+	}
+	return n
+}
+
+func patternOK(t *Term) bool {
+	switch t.Op {
+	case "ite", "and", "or", "not", "=>", "=", "forall", "exists", "bvult", "bvule", "bvslt", "bvsle", "<", "<=", "is":
+		return false
+	}
+	for _, a := range t.Args {
+		if !patternOK(a) {
+			return false
+		}
+	}
+	return true
 }
